@@ -21,6 +21,9 @@ CLAIMS = {
  "C16": dict(cat="model_checking", tech="TLA+ spec Shared.tla (threads sharing one write transaction: set_dirty / savepoint registration / allocation / freed-page merge as critical sections) checked by TLC incl. two seeded-bad variants; real multi-threaded sections and forced schedules (pause points) recorded and validated by TLC trace validation against Kv.tla + PagerInv.tla",
    text="design: all interleavings of the critical sections for 2-3 workers and a savepoint thread satisfy NoSharedPage/Accounting/TrackingOk/Eligibility. code: random histories with multi-threaded sections (real threads, plus the savepoint/first-open race forced through pause points) are linearized and judged by TLC: every call result, committed contents, savepoint restores and page accounting after every transaction.",
    note="thread interleavings inside the allocator/cache are sampled by real threads, only the savepoint race is forced", ref="DESIGN.md 4/C16"),
+ "C19": dict(cat="fault_enumeration", tech="TLA+ oracle (Kv.tla CrashAtomic/CrashProbe incl. peer_same) with TLC trace validation: histories executed by one release (current code or redb 3.0.0 from the local registry), every clean-close file and crash image opened by the other release",
+   text="both directions over random histories (all table kinds and key/value types of the corpora, savepoints, compaction): every clean-close file and every crash image must be opened by the other release with exactly one commit point of the history, the same contents the writing release shows, a passing integrity check and a working subsequent write. One known finding (3.0.0 answers Ok(false) on files shorter than it ever creates).",
+   note="4 KiB pages only (3.0.0 cannot choose); 3.0.0's own unrecoverable crash images skipped", ref="DESIGN.md 4/C19"),
  "C13": dict(cat="fault_enumeration", tech="TLA+ oracle (Kv.tla Compact + CrashAtomic) with TLC trace validation of compaction-heavy histories and crash enumeration of every backend operation issued during compaction",
    text="contents unchanged, refusals as documented, file never larger, bounded syncs, and all crash points inside compaction recover to the unchanged contents.",
    note="pass bound is a function of the file size (8 * (pages + 8) syncs)", ref="DESIGN.md 4/C13"),
